@@ -96,7 +96,9 @@ def rmOracle (a : List String) (obs : String) : String :=
       else if !u.complete then
         (endVerdict p true fin err).elim "ok" ("bad:" ++ ·)
       else if u.op == 1 && !wfUtf8 u.payload then
-        (if err == "utf8" then "ok" else "bad:invalid-utf8-text-not-rejected")
+        -- (reporting the transport's own failure, when it came together with the last bytes, is a report too:
+        --  what must not happen is the invalid text handed over with no error)
+        (if err == "utf8" || failOk fin kS bs.length u.stop err then "ok" else "bad:invalid-utf8-text-not-rejected")
       else
         let exp := msgsStr (u.inter ++ [(u.op, u.payload)])
         if failOk fin kS bs.length u.stop err then "ok"
@@ -260,7 +262,8 @@ def rddOracle (a : List String) (obs : String) : String :=
               else (endVerdict p true fin err).elim "ok" ("bad:" ++ ·)
             else if !wantOp u.op then walk rest replies' masks' fuel
             else if u.op == 1 && !wfUtf8 u.payload then
-              (if err != "utf8" then "bad:invalid-utf8-text-not-rejected"
+              (if failOk fin kS bs.length u.stop err then "ok"
+               else if err != "utf8" then "bad:invalid-utf8-text-not-rejected"
                else if wrBytes != replies'.take wrBytes.length then "bad:control-replies-differ" else "ok")
             else if failOk fin kS bs.length u.stop err then "ok"
             else if wrBytes != replies' then "bad:control-replies-differ"
@@ -369,7 +372,7 @@ def rdrOracle (a : List String) (obs : String) : String :=
               let hasRa := g.any (fun x => x.startsWith "ra,")
               let hasD := g.any (fun x => x.startsWith "d,")
               if invalidText && hasRa then
-                (if errs.contains "utf8" && delivered == u.payload.take delivered.length then go gs' us' (inters ++ ints) true fuel
+                (if (errs.contains "utf8" || errs.any (failOk fin kS total u.stop)) && delivered == u.payload.take delivered.length then go gs' us' (inters ++ ints) true fuel
                  else "bad:invalid-utf8-text-not-rejected")
               else if errs.any (failOk fin kS total u.stop) then
                 (if delivered != u.payload.take delivered.length then "bad:delivered-bytes-not-from-the-message"
